@@ -121,6 +121,11 @@ where
                             ended.store(true, AtomicOrdering::Release);
                         }
                         for source_talkback in source_talkbacks.iter() {
+                            if let Message::Pull = message {
+                                if ended.load(AtomicOrdering::Acquire) {
+                                    break;
+                                }
+                            }
                             if let Some(source_talkback) = &*source_talkback.load() {
                                 match message {
                                     Message::Handshake(_) => {
